@@ -365,7 +365,7 @@ Print Assumptions C17_window_examples.
    the three _explicit theorems). *)
 From S4.Base Require Chunk.
 From S4.Model Require Lines Caches RetainCaches.
-From S4.Proofs Require CachesProofs RetainKeepsUp RetainCachesAgree RetainCachesLayout.
+From S4.Proofs Require CachesProofs RetainKeepsUp RetainNoErr RetainCachesAgree RetainCachesLayout.
 
 (* what "agree" says: the five counters of summary() equal the five marks, the three stores have
    the same sizes, and no release failed *)
@@ -491,6 +491,43 @@ Theorem C17_cur_keeps_up_bounded : forall bs span ml ms c, pol c = P_cur -> wf b
   lenN (lines s) <= hl s /\ hl s <= bound_lines bs span ml 1.
 Proof. exact RetainKeepsUp.cur_keeps_up_bounded. Qed.
 Print Assumptions C17_cur_keeps_up_bounded.
+
+(* ... and under EVERY admissible schedule, whatever the bound H on the consumer's references: a run of
+   the current policy in which no release failed (drop_sysline Err = 0 in --summary) keeps the
+   bounds of the repaired policy for messages and lines.  This is the statement OUTSIDE finding
+   F9a: the recorded class (drop distance < capacity + 2) is exactly where releases can fail; the
+   check's slow-consumer stage observes Err = 0 and flat marks on files outside it *)
+Theorem C17_cur_no_failed_release_bounded : forall bs span ml H ms c evs, pol c = P_cur -> wf bs span ml ms ->
+  sched_ok H c (init ms) evs = true ->
+  let s := run c (init ms) evs in
+  derr s = 0 ->
+  lenN (syslines s) <= hs s /\ hs s <= bound_syslines bs span /\
+  lenN (lines s) <= hl s /\ hl s <= bound_lines bs span ml H /\
+  lenN (pending s) <= H.
+Proof. exact RetainNoErr.cur_no_err_bounded. Qed.
+Print Assumptions C17_cur_no_failed_release_bounded.
+
+Theorem C17_cur_no_failed_release_bounded_layout : forall bs layout H c evs, pol c = P_cur -> layout_ok bs layout ->
+  let ms := layout_msgs bs layout in
+  sched_ok H c (init ms) evs = true ->
+  let s := run c (init ms) evs in
+  derr s = 0 ->
+  hs s <= bound_syslines bs (max_span ms) /\ hl s <= bound_lines bs (max_span ms) (max_lines ms) H.
+Proof. exact RetainNoErr.cur_no_err_bounded_layout. Qed.
+Print Assumptions C17_cur_no_failed_release_bounded_layout.
+
+(* satisfiable with a lagging consumer: 240 lines of 20 bytes at block size 512; 7 messages behind
+   (channel capacity 5) no release fails; 66 behind (a capacity of 64) releases fail *)
+Theorem C17_no_failed_release_example :
+  let ms := layout_msgs 512 RetainNoErr.far_layout in
+  let n := length ms in
+  wfb 512 (max_span ms) (max_lines ms) ms = true /\
+  sched_ok 7 cur_plain (init ms) (sched_lag 7 n) = true /\
+  derr (run cur_plain (init ms) (sched_lag 7 n)) = 0 /\
+  sched_ok 66 cur_plain (init ms) (sched_lag 66 n) = true /\
+  0 < derr (run cur_plain (init ms) (sched_lag 66 n)).
+Proof. exact RetainNoErr.no_err_example. Qed.
+Print Assumptions C17_no_failed_release_example.
 
 Theorem C17_keeps_up_example :
   let ms := layout_msgs 64 ex_layout in
